@@ -119,7 +119,11 @@ pub(super) fn poll_connect(
                 syn: true,
                 ..TcpFlags::default()
             },
-            window: DEFAULT_WINDOW,
+            // Advertise the real receive window from the start: with the constant 65535
+            // the peer's first flight overshoots a small recv_buf_cap, the excess is
+            // refused and "times out", burning a retransmit attempt although nothing
+            // was lost.
+            window: advertised_window(k.recv_buf_cap, 0),
             payload: Bytes::new(),
         },
     );
@@ -544,7 +548,7 @@ fn accept_syn(
                 ack: true,
                 ..TcpFlags::default()
             },
-            window: DEFAULT_WINDOW,
+            window: advertised_window(k.recv_buf_cap, 0),
             payload: Bytes::new(),
         },
     );
@@ -1263,6 +1267,7 @@ pub(super) fn check_retx(k: &mut Kernel) {
 /// `snd_una - 1` as the seq — matches the ISN used at initial emit,
 /// since `snd_una` was set to `isn + 1` there.
 fn emit_handshake(k: &mut Kernel, fd: Fd) {
+    let window = advertised_window(k.recv_buf_cap, 0);
     let st = k.lookup(fd).expect("retx candidate");
     let tcb = st.tcb.as_ref().expect("handshake state has tcb");
     let local = bound_endpoint(st);
@@ -1287,7 +1292,7 @@ fn emit_handshake(k: &mut Kernel, fd: Fd) {
                 ack: ack_flag,
                 ..TcpFlags::default()
             },
-            window: DEFAULT_WINDOW,
+            window,
             payload: Bytes::new(),
         },
     );
